@@ -982,6 +982,11 @@ func (vc *VC) execAlloc(fr *Frame, in *ssa.Alloc) {
 // heapAlloc allocates a zeroed heap object of type et.
 func (vc *VC) heapAlloc(et types.Type, ptrT types.Type, hint string) *Val {
 	r := vc.allocRef("new_" + hint)
+	if _, isAt := atomicContent(et); isAt {
+		hn, hs := vc.cellHeap(et)
+		vc.set(hn, hs, fmt.Sprintf("(store %s %s %s)", vc.get(hn, hs), r, vc.zeroValue(et)))
+		return &Val{T: r, Ty: ptrT}
+	}
 	switch u := et.Underlying().(type) {
 	case *types.Struct:
 		if vc.isOpaqueStruct(et) {
